@@ -193,6 +193,11 @@ def draw_scalar(cls, info, rnd, m):
         return -rnd.randint(1, 90), meta
     if cls == 'int_zero':
         return 0, meta
+    if info['vc'] == 'pow2' and cls in ('int_pos', 'num_str_int', 'float_pos'):
+        if cls == 'float_pos':
+            return rnd.choice((4.0, 8.7, 16.25, 3.5)), meta
+        x = rnd.choice((1, 2, 4, 8, 16, 32, 64, 3, 12))
+        return (x if cls == 'int_pos' else str(x)), meta
     if cls == 'int_pos':
         return rnd.randint(1, 90), meta
     if cls == 'int_huge':
@@ -275,7 +280,7 @@ def draw_scalar(cls, info, rnd, m):
     if cls == 'hex_str':
         return rnd.choice(('ff', '1A', 'c0', '0e', 'Fe')), meta
     if cls == 'color_name':
-        return rnd.choice(('red', 'blue', 'aliceblue', 'off')), meta
+        return rnd.choice(('red', 'blue', 'aliceblue', 'orange')), meta
     if cls == 'color_hex':
         return rnd.choice(('ff8000', 'FFFFFF', '00aa11', '191919ff')), meta
     if cls == 'csv_int3':
@@ -283,7 +288,7 @@ def draw_scalar(cls, info, rnd, m):
     if cls == 'csv_int4':
         return '%d,%d,%d,%d' % (rnd.randint(0, 255), rnd.randint(0, 255), rnd.randint(0, 255), rnd.randint(0, 255)), meta
     if cls == 'gain_db_str':
-        return rnd.choice(('-3db', '-6.5 dB', '-inf', '0db')), meta
+        return rnd.choice(('-3db', '-6.5 dB', '-inf db', '0db')), meta
     if cls.startswith('t_'):
         _, suf, case, w = cls.split('_')
         if w == 'w':
@@ -307,11 +312,19 @@ def str_form(x):
 
 
 def draw_input(shape, ec, key, rnd, m):
-    """Build the concrete input value for class (shape, ec).  Returns (value, elems) where elems is the list of
-    (elem value, meta) the class decomposes into (for relation flags), or None when the decomposition is opaque."""
+    """Build the concrete input value for class (shape, ec).  Returns (value, elems, flat) where elems is the list of
+    (elem value, meta) the class decomposes into (for relation flags), or None when the decomposition is opaque;
+    flat = the scalar representatives the value was built from (for the relation to the declared range)."""
+    r = _draw_input(shape, ec, key, rnd, m)
+    return r if len(r) == 3 else (r[0], r[1], r[1])
+
+
+def _draw_input(shape, ec, key, rnd, m):
     info = key['v']
     if shape == 'scalar':
         v, meta = draw_scalar(ec, info, rnd, m)
+        if ec in ('csv_int3', 'csv_int4') and key['it'] in ('list', 'set'):
+            return v, [(x.strip(), {}) for x in v.split(',')]
         return v, [(v, meta)]
     if shape == 'empty_list':
         return [], []
@@ -326,13 +339,16 @@ def draw_input(shape, ec, key, rnd, m):
     if shape == 'list2':
         return [e1[0], e2[0]], [e1, e2]
     if shape == 'nested':
-        return [[e1[0], e2[0]]], None
+        return [[e1[0], e2[0]]], None, [e1, e2]
     if shape == 'list_empty':
         return [e1[0], ''], [e1, ('', {})]
     if shape == 'csv':
         if ec in ('empty_str',):
             raise Skip()
-        return '%s, %s' % (str_form(e1[0]), str_form(e2[0])), [(str_form(e1[0]), e1[1]), (str_form(e2[0]), e2[1])]
+        txt = '%s, %s' % (str_form(e1[0]), str_form(e2[0]))
+        if key['it'] == 'single':
+            return txt, [(txt, {})], [e1, e2]         # one element is expected: the string as a whole
+        return txt, [(str_form(e1[0]), e1[1]), (str_form(e2[0]), e2[1])], [e1, e2]
     if shape == 'dict_str':
         return {'ka': e1[0], 'kb_2': e2[0]}, [e1, e2]
     if shape == 'dict_int':
@@ -347,7 +363,7 @@ def draw_input(shape, ec, key, rnd, m):
         return {name: e1[0]}, [e1]
     if shape == 'tuple3':
         e3 = draw_scalar(ec, info, rnd, m)
-        return (e1[0], e2[0], e3[0]), None
+        return (e1[0], e2[0], e3[0]), None, [e1, e2, e3]
     raise KeyError(shape)
 
 
@@ -438,6 +454,14 @@ def elem_flags(info, inp, res, m, cv):
             pass
         if res > 0 and (res & (res - 1)) == 0:
             f.add('p2')
+    elif isinstance(res, (bool, float, str)):
+        # pow2 hands its input back as given: judge the numeric value (as Util.is_power2 reads it)
+        try:
+            n = int(res)
+            if n > 0 and (n & (n - 1)) == 0 and float(res) == n:
+                f.add('p2')
+        except (TypeError, ValueError, OverflowError):
+            pass
     if type(res).__name__ == 'RuntimeToken' and isinstance(inp, str) and res.token == inp[1:-1]:
         f.add('tok')
     if isinstance(res, tuple) and len(res) == 3 and all(type(c) is int for c in res):
@@ -450,6 +474,8 @@ def elem_flags(info, inp, res, m, cv):
             bs = cv.build_spec(parts[0], tuple(parts[1].split(',')) if len(parts) > 1 else None)
             if all(k in res for k in bs if bs[k] != 'ignore' and k[0] != '_'):
                 f.add('complete')
+            if isinstance(inp, dict) and ('__allow_others__' in bs or all(k in bs for k in inp)):
+                f.add('known')
         except Exception:  # pylint: disable=broad-except
             pass
     return f
@@ -462,25 +488,16 @@ def observe(key, value, elems, res, m, cv):
     o = {'ty': tname(res), 'ety': [], 'kty': [], 'n': -1, 'inr': True, 'f': [], 'vm': [], 'rms': [], 'suf': ''}
     pairs = None          # list of (input elem, meta, result elem, key result or None)
     if it == 'single':
-        isdev = 'dev' in elem_flags(info, value, res, m, cv)
-        o['ty'] = tname(res, isdev)
-        pairs = [(value, elems[0][1] if elems else {}, res)]
+        inp = elems[0][0] if elems else value
+        o['ty'] = tname(res, _is_dev(info, res, m))
+        pairs = [(inp, elems[0][1] if elems else {}, res)]
         o['n'] = 1
         o['inr'] = in_range(info, res)
-        if isinstance(res, (list, tuple)) and info['vc'] in ('color', 'kivycolor'):
-            o['ety'] = sorted({tname(c) for c in res})
     elif it in ('list', 'set') and isinstance(res, (list, set)):
         rl = list(res)
         o['n'] = len(rl)
         o['inr'] = all(in_range(info, r) for r in rl)
-        flags_dev = [('dev' in elem_flags(info, e[0], r, m, cv)) for e, r in zip(elems, rl)] \
-            if (elems is not None and len(elems) == len(rl) and it == 'list') else None
-        if it == 'set' and info.get('coll'):
-            coll = getattr(m, info['coll'], None)
-            vals = list(coll.values()) if coll is not None and hasattr(coll, 'values') else []
-            o['ety'] = sorted({tname(r, any(r is d for d in vals)) for r in rl})
-        else:
-            o['ety'] = sorted({tname(r, bool(flags_dev and flags_dev[i])) for i, r in enumerate(rl)})
+        o['ety'] = sorted({tname(r, _is_dev(info, r, m)) for r in rl})
         if elems is not None and len(elems) == len(rl) and it == 'list':
             pairs = [(e[0], e[1], r) for e, r in zip(elems, rl)]
     elif it in ('dict', 'event_handler') and isinstance(res, dict):
@@ -511,11 +528,18 @@ def observe(key, value, elems, res, m, cv):
                     o['rms'].append(rms)
                     o['suf'] = suf
                     exact_all = exact_all and exact
-        fl = set(fl or ())
+        fl = set(fl or ()) & (FLAGS_FOR.get(info['vc'], set()) | {'none', 'tok'})
         if o['vm'] and exact_all:
             fl.add('tex')
         o['f'] = sorted(fl)
     return o
+
+
+# relations that are meaningful for a validator class (others are not logged: smaller traces)
+FLAGS_FOR = {'str': {'ident'}, 'lstr': {'lower'}, 'int': {'numtr'}, 'float': {'numeq'}, 'num': {'numeq'},
+             'bool': {'btrue', 'bfalse'}, 'bool_int': {'btrue', 'bfalse'}, 'enum': {'member'}, 'machine': {'dev'},
+             'subconfig': {'complete', 'known'}, 'int_from_hex': {'hex'}, 'kivycolor': {'k4', 'lower'}, 'color': {'c3'},
+             'pow2': {'p2', 'numeq'}}
 
 
 def _is_dev(info, r, m):
@@ -560,9 +584,9 @@ def irel_of(key, elems):
             rels.add('above')
         else:
             rels.add('in')
-    if len(rels) == 1:
-        return rels.pop()
-    for w in ('nan', 'below', 'above'):
+    if len(rels) > 1:
+        rels.discard('na')
+    for w in ('nan', 'below', 'above', 'in'):
         if w in rels:
             return w
     return 'na'
@@ -619,11 +643,12 @@ def exec_case(cv, m, path, k, key, shape, ec, rnd):
                 elems = [(d, time_meta(d))]
             else:
                 elems = None
+            flat = elems
         else:
-            value, elems = draw_input(shape, ec, key, rnd, m)
+            value, elems, flat = draw_input(shape, ec, key, rnd, m)
     except Skip:
         return None, None
-    line['ir'] = irel_of(key, elems) if elems is not None else 'na'
+    line['ir'] = irel_of(key, flat) if flat is not None else 'na'
     shown = repr(value)[:80]
     arg = copy.deepcopy(value)
     try:
@@ -812,7 +837,14 @@ def _exec_section(seed, reps, sec):
     ev.append({'op': 'spec', 'same': bool(same)})
     ex.append({'key': sec})
     if not same:
-        _W.pop('h', None)      # polluted: boot a fresh machine for the next section
+        # polluted: restore the shared spec (and drop cached merged specs) so that the next sections start clean
+        live = cv.get_config_spec()
+        live.clear()
+        live.update(before)
+        try:
+            type(cv).build_spec.cache_clear()
+        except AttributeError:
+            pass
     return {'sec': sec, 'ev': ev, '_ex': ex, '_stats': stats, '_notes': notes}
 
 
@@ -832,7 +864,7 @@ def time_traces(seed, quick):
                 vals += [('n', '-%d' % rnd.randint(1, 20))]
                 vals += [('f', repr(float(x))) for x in (FRAC_EXACT[0], FRAC_EXACT[2], rnd.choice(FRAC_EXACT))]
                 vals += [('d', x) for x in TIME_DECIMALS]
-                vals += [('d', '%d.%03d' % (rnd.randint(0, 19), rnd.randint(1, 999))) for _ in range(3 if quick else 40)]
+                vals += [('d', '%d.%03d' % (rnd.randint(0, 19), rnd.randint(1, 999))) for _ in range(3 if quick else 120)]
                 for vk, txt in vals:
                     vm = Fraction(txt) * 1000
                     s = txt + (suf.upper() if up else suf)
@@ -856,3 +888,199 @@ def time_traces(seed, quick):
                     traces.append({'sec': 'time', 'ev': [line], '_ex': [{'in': s, 'res': shown, 'key': 'Util.string_to_' + fn}],
                                    '_stats': {}, '_notes': []})
     return traces
+
+
+# ----------------------------------------------------------------------------------------------
+# the check
+# ----------------------------------------------------------------------------------------------
+MC_CFG = """SPECIFICATION Spec
+CONSTANTS
+  TimeVals = {%s}
+INVARIANT Total
+INVARIANT Consistent
+INVARIANT TimeSemantics
+INVARIANT SectionRules
+CHECK_DEADLOCK FALSE
+"""
+TRACE_CFG = """SPECIFICATION TSpec
+CONSTANTS
+  TimeVals <- TTimeVals
+INVARIANT Reporter
+CHECK_DEADLOCK FALSE
+"""
+
+
+def _expected_ms(line):
+    """value * unit in ms (only used to LABEL a rejected time line; the judgement is ConfigTypesTrace's)."""
+    unit = UNIT_MS[line['suf']] if line['suf'] else (1 if line['fn'] == 'ms' else 1000)
+    return int(Fraction(line['vm'], 1000) * unit)
+
+
+def signature(line):
+    """One signature per distinct failure class."""
+    op = line.get('op')
+    if op == 'time':
+        suf = line['suf'] or 'bare'
+        if line['o'] != 'accept':
+            return 'C12:time:%s-suffix' % suf
+        return 'C12:time:truncation' if abs(line['rms'] - _expected_ms(line)) <= 1 else 'C12:time:%s-value' % suf
+    if op == 'section':
+        return 'C12:section:%s' % line['mode']
+    if op in ('spec', 'built'):
+        return 'C12:spec-mutated'
+    if op == 'item':
+        if line['ir'] == 'nan' or (not line['inr'] and line['ec'] in ('float_nan', 'nan_str')):
+            return 'C12:range:nan:%s' % line['vc']
+        if not line['inr'] or line['ir'] in ('below', 'above'):
+            return 'C12:range:%s' % line['vc']
+        return 'C12:type:%s' % line['vc']
+    return 'C12:%s' % op
+
+
+def _describe(line, ex):
+    op = line.get('op')
+    if op == 'time':
+        return ('Util.string_to_%s(%r) -> %s; value * unit = %d ms expected (%r is an accepted unit suffix)' % (
+            line['fn'], ex.get('in'), ex.get('res'), _expected_ms(line), line['suf']))
+    if op == 'item':
+        return ('%s: spec "%s" input class %s/%s value %s -> %s; observed type %s elems %s keys %s in_range=%s flags=%s: '
+                'not allowed by Judge (ill-typed / out of range / wrong relation)' % (
+                    ex.get('key'), ex.get('spec'), line['sh'], line['ec'], ex.get('in'), ex.get('res'), line['ty'], line['ety'],
+                    line['kty'], line['inr'], line['f']))
+    return '%s: %s' % (ex.get('key'), line)
+
+
+def run(ctx):
+    from lib.runner import Machinery
+    wd = tlc.prepare(ctx.scratch, 'ConfigTypes', 'configtypes')
+    tvals = [0, 500, 1000, 1001, 1500, 2300, 15000, 20000] + ([] if ctx.quick else [1, 999, 7000, 12345, 19999, 250, 16080])
+    with open(wd + '/MC.cfg', 'w') as f:
+        f.write(MC_CFG % ', '.join(str(x) for x in tvals))
+    r = tlc.expect_ok(tlc.check(wd, 'ConfigTypes', 'MC.cfg', timeout=600, extra=('-nowarning',)), 'ConfigTypes design check')
+    ctx.add_tlc('ConfigTypes (case table)', r, {'item_types': len(ITEM_TYPES), 'validator_classes': len(VCLASSES),
+                                                 'input_classes': len(all_input_classes()), 'time_vals': tvals})
+    ctx.coverage['monitors'] += ['Total', 'Consistent', 'TimeSemantics', 'SectionRules', 'UnitTable(ASSUME)',
+                                 'ItemOK', 'TimeLineOK', 'SectionOK', 'spec-unchanged']
+    m = _machine()
+    spec = m.config_validator.get_config_spec()
+    secs = [s for s in sorted(spec) if isinstance(spec[s], dict) and not s.startswith('_')]
+    reps = 1 if ctx.quick else 6
+    traces = harness.pmap(exec_section, [(ctx.seed, reps, s) for s in secs], chunk=2, item_timeout=600)
+    ttraces = time_traces(ctx.seed, ctx.quick)
+    for t in traces:
+        if t['ev'] and t['ev'][0].get('op') == 'crash':
+            raise Machinery('section %s crashed in the harness: %s\n%s' % (t['sec'], t['ev'][0], t.get('_tb')))
+        for ln, ex in zip(t['ev'], t['_ex']):
+            if ln.get('o') == 'crash':
+                raise Machinery('observer crashed: %s %s' % (ln, ex))
+    with open(wd + '/Trace.cfg', 'w') as f:
+        f.write(TRACE_CFG)
+    tot = {}
+    unclean = {}
+    notes = []
+    for t in traces:
+        for k, v in t['_stats'].items():
+            if isinstance(v, int):
+                tot[k] = tot.get(k, 0) + v
+        for k, v in t['_stats'].get('unclean_by', {}).items():
+            unclean[k] = unclean.get(k, 0) + v
+        notes += t['_notes']
+    nlines = sum(len(t['ev']) for t in traces)
+    ctx.log('executed %d validator calls on %d keys of %d sections (%d distinct observation lines); %d time calls' % (
+        tot.get('calls', 0), tot.get('keys', 0), len(secs), nlines, len(ttraces)))
+    if tot.get('keys', 0) < 1500 or tot.get('accept', 0) < 10000:
+        raise Machinery('vacuous coverage: %s' % tot)
+
+    found = []          # (line, example)
+    v1 = tlc.validate_traces(wd, 'ConfigTypesTrace', 'Trace.cfg', traces, diagnose=False, batch=60, workers=8)
+    ctx.add_trace_verdict('sections (item + section level)', v1, len(traces))
+    bad = sorted(v1.rejected)
+    if bad:
+        # pinpoint: every distinct line of the rejected sections as its own single-line trace
+        singles, seen = [], set()
+        for i in bad:
+            for ln, ex in zip(traces[i]['ev'], traces[i]['_ex']):
+                lk = _lkey(ln)
+                if lk in seen:
+                    continue
+                seen.add(lk)
+                singles.append({'sec': traces[i]['sec'], 'ev': [ln], '_ex': [ex]})
+        v2 = tlc.validate_traces(wd, 'ConfigTypesTrace', 'Trace.cfg', singles, diagnose=False, batch=6000, workers=8)
+        ctx.add_trace_verdict('pinpoint (single-line traces of rejected sections)', v2, len(singles))
+        for j in sorted(v2.rejected):
+            found.append((singles[j]['ev'][0], singles[j]['_ex'][0]))
+        if not v2.rejected:
+            raise Machinery('sections %s rejected but no single line is' % [traces[i]['sec'] for i in bad])
+    v3 = tlc.validate_traces(wd, 'ConfigTypesTrace', 'Trace.cfg', ttraces, diagnose=False, batch=6000, workers=8)
+    ctx.add_trace_verdict('time table (Util.string_to_ms / string_to_secs)', v3, len(ttraces))
+    for j in sorted(v3.rejected):
+        found.append((ttraces[j]['ev'][0], ttraces[j]['_ex'][0]))
+
+    by_sig = {}
+    for ln, ex in found:
+        by_sig.setdefault(signature(ln), []).append((ln, ex))
+    for sig in sorted(by_sig):
+        items = by_sig[sig]
+        ln, ex = items[0]
+        what = '%s  [%d distinct failing observations; more: %s]' % (
+            _describe(ln, ex), len(items), '; '.join('%s %s->%s' % (e.get('key'), e.get('in'), e.get('res', e.get('exc'))) for _, e in items[1:6]))
+        ctx.violation(sig, what, {'line': ln, 'example': ex, 'others': [{'line': a, 'example': b} for a, b in items[1:40]]})
+
+    ctx.coverage['calls'] = tot
+    ctx.coverage['sections'] = len(secs)
+    ctx.coverage['distinct_observation_lines'] = nlines
+    ctx.coverage['time_calls'] = len(ttraces)
+    ctx.coverage['unclean_rejections'] = dict(sorted(unclean.items(), key=lambda kv: -kv[1])[:60])
+    ctx.coverage['unclean_rejections_total'] = sum(unclean.values())
+    ctx.coverage['default_rejected'] = sorted({d for t in traces for d in t['_stats'].get('default_rejected', [])})
+    ctx.coverage['unclassified_keys'] = sorted({d for t in traces for d in t['_stats'].get('unclassified', [])})
+    sl = [ln for t in traces for ln in t['ev'] if ln.get('op') == 'section']
+    ctx.coverage['section_level'] = {
+        'sections': len(sl) // 3,
+        'missing_accept': sum(1 for x in sl if x['mode'] == 'missing' and x['o'] == 'accept'),
+        'unknown_rejected': sum(1 for x in sl if x['mode'] == 'unknown' and x['o'] != 'accept'),
+        'unknown_allowed_by_allow_others': sum(1 for x in sl if x['mode'] == 'unknown' and x['o'] == 'accept' and x['allow']),
+        'provided_accept': sum(1 for x in sl if x['mode'] == 'provided' and x['o'] == 'accept'),
+        'not_standalone': [n for n in notes if 'note' in n][:40],
+        'section_rejections': [n for n in notes if 'exc' in n and n.get('mode') != 'unknown'][:40]}
+    t0 = next(t for t in traces if t['sec'] == 'coils')
+    ctx.sample({'kind': 'section-trace', 'section': 'coils', 'lines': t0['ev'][:4], 'examples': t0['_ex'][:4]})
+    ctx.sample({'kind': 'time-trace', 'line': ttraces[3]['ev'][0], 'example': ttraces[3]['_ex'][0]})
+    ctx.assumptions += [
+        'machine "configtypes" provides devices for 15 of the 19 collections used by machine(x) validators; for the others '
+        'only the reject paths (unknown name, None, wrong type) are exercised',
+        'clean rejection = ConfigFileError / AssertionError / ValueError; other exception types are counted as unclean_rejections, '
+        'not violations',
+        'python tuples are outside the YAML-representable domain: executed, but unconstrained by Judge',
+        'None / "None" returning None is accepted for every validator (optional keys)',
+        'device-specific cross-key validation and _-prefixed keys are not covered']
+
+
+def replay(ctx, data):
+    d = data['replay']
+    ln, ex = d['line'], d['example']
+    print('signature line:', ln)
+    print('example:', ex)
+    if ln.get('op') == 'time':
+        from mpf.core.utility_functions import Util
+        f = Util.string_to_ms if ln['fn'] == 'ms' else Util.string_to_secs
+        try:
+            print('replay: %s(%r) -> %r' % (f.__name__, ex['in'], f(ex['in'])))
+        except Exception as e:  # pylint: disable=broad-except
+            print('replay: %s(%r) raised %r' % (f.__name__, ex['in'], e))
+        return
+    m = _machine()
+    cv = m.config_validator
+    spec = ex.get('spec', '').split('|')
+    if ln.get('op') == 'item' and len(spec) == 3:
+        import ast
+        try:
+            val = ast.literal_eval(ex['in'].replace('nan', '"__nan__"').replace('inf', '"__inf__"'))
+        except Exception:  # pylint: disable=broad-except
+            val = ex['in']
+        if val == '__nan__':
+            val = float('nan')
+        try:
+            print('replay: validate_config_item(%r, item=%r) -> %r' % (spec, val, cv.validate_config_item(spec, _vfi(('replay',), 'k'), val)))
+        except Exception as e:  # pylint: disable=broad-except
+            print('replay: raised %r' % e)
